@@ -7,6 +7,7 @@ package varmq
 // Payloads are job keys (ints); the harness worker function derives its outcome from the key.
 
 import (
+	"encoding/json"
 	"github.com/goptics/varmq/internal/helpers"
 	"context"
 	"errors"
@@ -389,8 +390,8 @@ func (ep *episode) setup() {
 					}}
 			case "pfifo", "dfifo":
 				ad := newRecAdapter(ep, len(ep.adapt), false)
-				ep.adapt = append(ep.adapt, ad)
 				ep.preload(ad)
+				ep.addAdapter(ad)
 				hq := &hQueue{kind: kind, values: ad.Values}
 				if kind == "pfifo" {
 					q := b.WithPersistentQueue(ad)
@@ -410,8 +411,8 @@ func (ep *episode) setup() {
 				return hq
 			case "pprio", "dprio":
 				ad := newRecAdapter(ep, len(ep.adapt), true)
-				ep.adapt = append(ep.adapt, ad)
 				ep.preload(ad)
+				ep.addAdapter(ad)
 				pad := &recPrioAdapter{ad}
 				hq := &hQueue{kind: kind, values: ad.Values}
 				if kind == "pprio" {
@@ -444,6 +445,13 @@ func (ep *episode) setup() {
 	if ep.ws == nil {
 		ep.ws = []Worker{ep.w}
 	}
+}
+
+func (ep *episode) addAdapter(ad *recAdapter) {
+	ep.mu.Lock()
+	ep.adapt = append(ep.adapt, ad)
+	ep.hcond.Broadcast()
+	ep.mu.Unlock()
 }
 
 // preload puts the configured entries into the adapter before anything is bound to it
@@ -598,6 +606,16 @@ func (ep *episode) exec(o opSpec) []any {
 			b.wait()
 		}
 		return []any{"res", "closed", "items", items}
+	case "RawAd":
+		// another producer process writes a valid entry straight to the (shared) adapter, as soon as it exists
+		ep.mu.Lock()
+		for len(ep.adapt) == 0 {
+			ep.hcond.Wait()
+		}
+		ad := ep.adapt[0]
+		ep.mu.Unlock()
+		b, _ := newJob(o.Job, jobConfigs{Id: jobID(o.Job)}).Json()
+		return []any{"ok", ad.enqueue(b, o.Prio)}
 	case "Raw":
 		hq := q()
 		if hq == nil || hq.raw == nil {
@@ -835,9 +853,12 @@ func (ep *episode) quiescentEvent(blocked []string, label string, settled bool) 
 		"census", census(), "settled", settled, "jst", jst, "peak", ep.peak.Load(), "errs", ep.errsN.Load(), "st", st)
 }
 
+var liveSink *json.Encoder // set by the test entry point
+
 func runEpisode(prog *progSpec) (res epResult) {
 	gated := prog.Sched.Kind != "free" && prog.Sched.Kind != "race"
 	g := newGate(gated)
+	g.sink = liveSink
 	if prog.Sched.Kind == "race" {
 		// race-detector runs: no logging at all, the harness must not add any synchronisation of its own
 		g.active.Store(false)
